@@ -105,6 +105,17 @@ def check(ctx):
     ctx.inst('R3', wp, 'frame', body == ["data = bytearray(struct.pack(%r, %s.length + 2))" % (wf, pv), 'data += %s.wireData' % pv, 'self._socket.send(data)'] or
              (len(body) == 3 and body[1] == 'data += %s.wireData' % pv and body[2] in ('self._socket.send(data)', 'self._socket.sendall(data)')), 'frame = prefix + wire data, sent once; body %s' % body)
     rb = [norm(s) for s in effective(rp.node.body) if not isinstance(s, ast.FunctionDef)]
+    # the packet may be built by a constructor-like classmethod of CPXPacket (body: cls() / .wireData = argument / return)
+    rstm = [s_ for s_ in effective(rp.node.body) if isinstance(s_, ast.Return)]
+    if len(rb) == 3 and rb[2].startswith('return CPXPacket.') and len(rstm) == 1 and isinstance(rstm[0].value, ast.Call):
+        rc_ = rstm[0].value
+        P_ = m.cls(CPX, 'CPXPacket')
+        if P_.has(rc_.func.attr) and len(rc_.args) == 1 and not rc_.keywords:
+            cm = P_.method(rc_.func.attr)
+            cb_ = [norm(s_) for s_ in effective(cm.node.body)]
+            if any(isinstance(d_, ast.Name) and d_.id == 'classmethod' for d_ in cm.node.decorator_list) and len(cm.params) == 2 and \
+                    cb_ == ['packet = %s()' % cm.params[0], 'packet.wireData = %s' % cm.params[1], 'return packet']:
+                rb = rb[:2] + ['packet = CPXPacket()', 'packet.wireData = %s' % norm(rc_.args[0]), 'return packet']
     ctx.inst('R3', rp, 'reader-sequence', rb[:5] == ["size = struct.unpack(%r, self._readData(2))[0]" % rf, 'data = self._readData(size)', 'packet = CPXPacket()', 'packet.wireData = data', 'return packet'],
              'reader: prefix from exactly 2 bytes, then exactly `size` bytes become the wire data; body %s' % rb[:5])
     ctx.inst('R3', rp, 'prefix-read-size', 'self._readData(2)' in rb[0] and struct.calcsize(rf) == 2, 'the prefix read asks for calcsize(prefix) = 2 bytes')
